@@ -244,6 +244,7 @@ func TestVerif_C15(t *testing.T) {
 	rec := evid.New("C15")
 	rec.Rule = "byte streams sent to a server in its own child process over TCP with record marking: pure random bytes; valid calls for every procedure mutated by bit flips, corruption of length fields (fragment, record, string, opaque, count, gid count) and truncation at every byte with half-close; declared lengths up to 2^32-1 with tiny payloads (allocation measured in the child); many tiny fragments; pipelined valid calls (order check); a fresh probe connection (NULL + GETATTR) after every batch; distinct = (stream class, procedure, server reaction) tuples"
 	defer rec.Write()
+	vfC15StallMidRecord(rec)
 	child, err := vfStartChild(0)
 	if err != nil {
 		rec.Infra("cannot start the server child: " + err.Error())
@@ -759,4 +760,95 @@ func vfC15ReplyLengths(rec *evid.Rec) {
 		rec.Distinct(fmt.Sprintf("reply-length|%d|ok=%v", recLen, bad == ""))
 	}
 	child.stats()
+}
+
+// vfC15StallMidRecord: a client sends part of a record, stalls for longer than the connection loop's
+// read timeout, and then goes on. The loop is run in-process over a pipe with a read timeout of
+// 250 ms (the listener uses 30 s; the loop takes it as a parameter). The part sent after the stall
+// contains, as WRITE payload, the bytes of a complete framed NULL call with its own XID. Whatever the
+// server does about the stall - close, or wait and answer the WRITE - it never answers a call the
+// client did not send: every reply carries the XID of the one call that was sent.
+func vfC15StallMidRecord(rec *evid.Rec) {
+	for _, stall := range []time.Duration{0, 700 * time.Millisecond} {
+		for _, cut := range []int{2, 4, 60, 200} {
+			fs := refs.New()
+			fs.PlantFile("/f", make([]byte, 64), 0666, 0, 0)
+			srv, err := vfNewSrv(fs, ExportOptions{AttrCacheTimeout: 1})
+			if err != nil {
+				rec.Infra(err.Error())
+				return
+			}
+			c := srv.client()
+			root, _ := c.mnt("/")
+			l, _ := c.lookup(root, "f")
+			if l == nil || l.Status != 0 {
+				rec.Infra("lookup f")
+				srv.Close()
+				return
+			}
+			cl, sv := net.Pipe()
+			wrapped := &vfAddrConn{Conn: sv, remote: &net.TCPAddr{IP: net.ParseIP("127.0.0.1"), Port: 790}}
+			cio := &recordMarkingConnIO{server: srv.srv, rmConn: NewRecordMarkingConn(wrapped, wrapped)}
+			loopDone := make(chan struct{})
+			go func() {
+				defer close(loopDone)
+				srv.srv.handleConnectionLoop(wrapped, srv.ph, cio, 250*time.Millisecond, 250*time.Millisecond)
+			}()
+			const sentXID, hiddenXID = 0x1111, 0xBADBAD
+			hidden := xdrw.Record(xdrw.CallHeader(hiddenXID, vfProgNFS, 3, 0, xdrw.Cred{}))
+			payload := append(append(make([]byte, 100), hidden...), make([]byte, 60)...)
+			for len(payload)%4 != 0 {
+				payload = append(payload, 0)
+			}
+			msg := append(xdrw.CallHeader(sentXID, vfProgNFS, 3, 7, vfRootCred()), xdrw.ArgWrite(vfFH(l.FH), 0, uint32(len(payload)), 2, payload)...)
+			record := xdrw.Record(msg)
+			if cut > len(record) {
+				cut = len(record) / 2
+			}
+			var xids []uint32
+			readerDone := make(chan struct{})
+			go func() {
+				defer close(readerDone)
+				for {
+					cl.SetReadDeadline(time.Now().Add(3 * time.Second))
+					var h [4]byte
+					if _, err := io.ReadFull(cl, h[:]); err != nil {
+						return
+					}
+					n := int((uint32(h[0])<<24 | uint32(h[1])<<16 | uint32(h[2])<<8 | uint32(h[3])) & 0x7fffffff)
+					if n > 1<<20 {
+						return
+					}
+					b := make([]byte, n)
+					if _, err := io.ReadFull(cl, b); err != nil {
+						return
+					}
+					if len(b) >= 4 {
+						xids = append(xids, uint32(b[0])<<24|uint32(b[1])<<16|uint32(b[2])<<8|uint32(b[3]))
+					}
+				}
+			}()
+			cl.SetWriteDeadline(time.Now().Add(5 * time.Second))
+			cl.Write(record[:cut])
+			time.Sleep(stall)
+			cl.SetWriteDeadline(time.Now().Add(5 * time.Second))
+			cl.Write(record[cut:]) // fails if the server has closed meanwhile: fine
+			<-readerDone
+			cl.Close()
+			select {
+			case <-loopDone:
+			case <-time.After(10 * time.Second):
+			}
+			rec.Eval(1)
+			foreign := false
+			for _, x := range xids {
+				if x != sentXID {
+					foreign = true
+					rec.Violate("C15/reply-to-a-call-the-client-never-sent/client-stalled-mid-record", fmt.Sprintf("one WRITE call (XID %#x) was sent, cut after %d bytes with a stall of %v in between (read timeout of the loop: 250ms); the server sent a reply with XID %#x - the bytes of the WRITE's payload were parsed as a call", sentXID, cut, stall, x), map[string]any{"cut": cut, "stall": stall.String(), "reply_xids": xids})
+				}
+			}
+			rec.Distinct(fmt.Sprintf("stall-mid-record|stall=%v|cut=%d|replies=%d|foreign=%v", stall, cut, len(xids), foreign))
+			srv.Close()
+		}
+	}
 }
